@@ -37,7 +37,7 @@ from common import zlit, blit, llit, olit, VERIF
 from gridlib import GridCase, frac
 
 ID = 'C11'
-GEN = []          # no generated Coq files: translator problems of other properties' specs are not C11's
+GEN = ['Gen_seed_id.v']     # SeedTask.id (translator/specs/seed_id.py)
 TECHNIQUE = ('Coq proof (induction over arbitrary walk trees / lexicographic progress order) + correspondence check of the '
              'executable model against the real TileWalker, SeedProgress and ProgressStore, including interrupted and resumed runs')
 LEVEL_TEXT = ('Theorems over the Gallina model of TileWalker._walk / SeedProgress for every walk tree, every old progress '
@@ -50,7 +50,7 @@ LEVEL_TEXT = ('Theorems over the Gallina model of TileWalker._walk / SeedProgres
 LEVEL_NOTE = ('Trusted: Coq kernel, hand-written model Seed.v / Grid.v, the correspondence harness. Not verified: IEEE rounding '
               '(exact stream is bit exact; realistic stream is tied at the level of the recorded walk tree), shapely predicates '
               'and PROJ (the coverage predicate is a function parameter of the model; answers are recorded), worker processes, '
-              'work_on_metatiles=False (rescale_tiles), --skip-uncached (is_stale) mode; the cache content is fixed during a task (the recording pool stores nothing).')
+              '--skip-uncached (is_stale) mode; the cache content is fixed during a task (the recording pool stores nothing).')
 DESIGN_REF = 'DESIGN.md section 5, C11'
 RULE = ('case = (task: grid, meta size, levels, coverage, skip_geoms; run: uninterrupted / crash index / resumed from persisted '
         'identifier); non-trivial = task with at least two traversed levels and a coverage that selects a proper subset, or an '
@@ -62,7 +62,7 @@ TRUSTED = ['model Seed.v hand-written from mapproxy/seed/seeder.py, seed/util.py
            'file is written atomically (write_atomic) by the report that persists it']
 ASSUMPTIONS = ['coverage predicate monotone (CONTAINS for a rectangle implies not NONE for every rectangle overlapping it)',
                'levels sorted, unique, valid (LevelsList.for_grid guarantees it)',
-               'work_on_metatiles; handle_all or uncached mode with a cache content that does not change during the history']
+               'handle_all or uncached mode with a cache content that does not change during the history']
 EXPLANATION = ('resume_covers proved for every tree, crash index and persisted report; real walker interrupted and resumed through '
                'the real ProgressStore, traces compared with the model')
 
@@ -198,9 +198,9 @@ def make_classes():
             run.nreports += 1
             run.clock.now = self._lastprogress + (1000.0 if want else 0.0)
             ident = progress.current_progress_identifier()
-            before = self.progress_store.writes
+            before = self.progress_store.writes if self.progress_store else 0
             ProgressLog.log_progress(self, progress, level, bbox, tiles)
-            wrote = self.progress_store.writes > before
+            wrote = bool(self.progress_store) and self.progress_store.writes > before
             run.events.append(('rep', level, canon_ident(ident), wrote))
             if wrote:
                 run.check_store(ident)
@@ -288,7 +288,7 @@ class Run(object):
             refresh_all = self.spec.get('refresh_all', True)
             walker = TileWalker(self.task, pool, handle_uncached=True, handle_all=refresh_all,
                                 skip_geoms_for_last_levels=self.spec.get('skip', 0), progress_logger=log,
-                                seed_progress=progress)
+                                seed_progress=progress, work_on_metatiles=self.spec.get('womt', True))
             self.report_till = walker.report_till_level
             if self.record_tree:
                 self.tree = TreeRec(walker)
@@ -600,7 +600,7 @@ def gen_exact_spec(rng):
     return {'stream': 'exact', 'grid': gs, 'meta': list(rng.choice([(1, 1), (2, 2), (2, 2), (3, 2), (4, 4), (1, 3), (5, 1)])),
             'levels': limit_levels(gs, cov, gen_levels(rng, len(gs['res']))), 'cov': cov,
             'skip': rng.choice([0, 0, 0, 0, 1, 2, 3]), 'real_tm': rng.random() < 0.5, 'refresh_all': rng.random() < 0.4,
-            'cached': gen_cached(rng)}
+            'cached': gen_cached(rng), 'womt': rng.random() < 0.75}
 
 
 def gen_pyramid_spec(rng):
@@ -653,7 +653,7 @@ BEND_GRIDS = [
      [(4.0, 50.0, 14.0, 50.1), (5.0, 50.2, 11.5, 50.35), (3.5, 49.9, 13.0, 50.0), (6.0, 50.6, 14.5, 50.7)]),
     ({'tile_grid': {'srs': 3035, 'bbox': [2000000.0, 1000000.0, 7000000.0, 5500000.0], 'res': [10000, 2500, 500, 100],
                     'tile_size': [128, 128]}},
-     [(18.0, 40.0, 30.0, 40.25), (-8.0, 38.0, 4.0, 38.2), (20.0, 58.0, 34.0, 58.2)]),
+     [(3.0, 40.0, 17.5, 40.25), (1.0, 58.0, 20.0, 58.2), (4.0, 36.0, 15.0, 36.2)]),     # across the central meridian (10 E)
     ({'tile_grid': {'srs': 25832, 'bbox': [-100000.0, 5400000.0, 1100000.0, 5700000.0], 'res': [1000, 250, 50],
                     'tile_size': [256, 256], 'origin': 'nw'}},
      [(4.5, 50.0, 13.5, 50.15), (5.0, 50.4, 14.0, 50.5)]),
@@ -741,10 +741,10 @@ class Geo(object):
             ys.reverse()
         return [(x, y, l) for y in ys for x in range(mx, mx + sx) if self.valid((x, y, l))]
 
-    def expected_call(self, t, handle_all, rule):
+    def expected_call(self, t, handle_all, rule, womt=True):
         """the list worker_pool.process must receive for subtile t ([] = no call)"""
         if handle_all:
-            return [tuple(t)]
+            return [tuple(t)] if womt else self.members(t)
         return [m for m in self.members(t) if not is_cached_rule(rule, m)]
 
     def main_of(self, tiles):
@@ -808,6 +808,7 @@ class TaskCheck(object):
         ctx.count('levels=%s' % ('all' if len(spec['levels']) == grid.levels else 'subset'))
         ctx.count('skip_geoms=%d' % spec.get('skip', 0))
         ctx.count('meta=%dx%d' % tuple(spec['meta']))
+        ctx.count('work_on_metatiles=%s' % spec.get('womt', True))
         ctx.count('mode=' + ('refresh_all' if spec.get('refresh_all', True) else 'uncached, cache %s' % ('partly filled' if spec.get('cached') else 'empty')))
         nproc = len(U.processed())
         nontrivial = len(spec['levels']) > 0 and max(spec['levels']) >= 1 and nproc > 1
@@ -845,7 +846,7 @@ class TaskCheck(object):
                 bad = 'contains an invalid tile'
             else:
                 main = geo.main_of(call)
-                want = geo.expected_call(main, handle_all, rule)
+                want = geo.expected_call(main, handle_all, rule, spec.get('womt', True))
                 if [tuple(t) for t in call] != want:
                     bad = 'is not the list of %s tiles of meta tile %r (expected %r)' % (
                         'all' if not rule else 'uncached', main, want[:8])
@@ -931,7 +932,7 @@ class TaskCheck(object):
                         break
                 if not ok:
                     continue
-                if not geo.expected_call(t, handle_all, rule):
+                if not geo.expected_call(t, handle_all, rule, spec.get('womt', True)):
                     continue        # every member is cached: no call expected
                 checked += 1
                 if t not in pset:
@@ -1014,7 +1015,7 @@ class TaskCheck(object):
                     required[t] = p
         ctx.count('footprint_required_tiles', len(required))
         for t, p in sorted(required.items()):
-            if not geo.expected_call(t, handle_all, rule):
+            if not geo.expected_call(t, handle_all, rule, spec.get('womt', True)):
                 continue
             if t not in pset:
                 ctx.fail('coverage-footprint-tile-not-processed',
@@ -1125,10 +1126,10 @@ class TaskCheck(object):
                 out['defs'].append(gc.definition())
                 for name, r, k in runs:
                     obs = r.events[:]
-                    term = '(%s, %d, %d, %s, %s, %s, %s, %s, %s, (%s, %s), %s)' % (
+                    term = '(%s, %d, %d, %s, %s, %s, %s, %s, %s, (%s, %s, %s), %s)' % (
                         gc.name, spec['meta'][0], spec['meta'][1], covterm, zlit(spec.get('skip', 0)), llit(spec['levels']),
                         root, ident_lit(r.old), 'None' if not r.crashed else 'Some %d%%nat' % len(obs),
-                        blit(handle_all), keep_lit(rule), oevents_lit(obs))
+                        blit(handle_all), keep_lit(rule), blit(spec.get('womt', True)), oevents_lit(obs))
                     out['geo'].append((term, {'task': spec, 'run': name, 'old': r.old, 'crash_at': k, 'events': len(obs),
                                               'observed_tail': [list(e) for e in obs[-4:]]}))
                 return
@@ -1148,7 +1149,7 @@ class TaskCheck(object):
             if node is None:
                 return
             for sub in node['subs']:
-                if sub['t'] is not None and not geo.expected_call(tuple(sub['t']), handle_all, rule):
+                if sub['t'] is not None and not geo.expected_call(tuple(sub['t']), handle_all, rule, spec.get('womt', True)):
                     drop.add(tuple(sub['t']))
                 collect(sub['child'])
         if not handle_all and rule:
@@ -1294,6 +1295,264 @@ def pool_cases(ctx):
             return
 
 
+# ----------------------------------------------------------------------------- task ids and the configuration path
+
+def id_cases(ctx):
+    """SeedTask.id (key of the progress store) vs the generated Gen_seed_id.seed_task_id; oracle: ids collide only for equal tasks"""
+    from mapproxy.seed.seeder import SeedTask
+    rng = ctx.rng
+
+    class TM(object):
+        grid = None
+    words = ['a', 'b', 'seed', 'osm', 'osm_cache', 'GLOBAL_GEODETIC', 'g', '', 'cleanup']
+    tasks, terms, descs = [], [], []
+    for _ in range(ctx.n(40, 400)):
+        n, c, g = rng.choice(words), rng.choice(words), rng.choice(words)
+        lv = sorted(set(rng.randrange(0, 6) for _ in range(rng.choice([0, 1, 1, 2, 3]))))
+        t = SeedTask({'name': n, 'cache_name': c, 'grid_name': g}, TM(), lv, None, False, None)
+        try:
+            tid = t.id
+        except Exception as e:  # noqa
+            ctx.fail('task-id-raises', 'SeedTask.id raised %r' % (e,), {'name': n, 'cache': c, 'grid': g, 'levels': lv})
+            continue
+        tasks.append(((n, c, g, tuple(lv)), tid))
+        ctx.case(('id', n, c, g, tuple(lv)), False)
+        parts = []
+        for e in tid:
+            if isinstance(e, str):
+                parts.append('inl %s' % llit([ord(ch) for ch in e]))
+            else:
+                parts.append('inr %s' % llit(list(e)))
+        enc = lambda w: llit([ord(ch) for ch in w])  # noqa
+        terms.append('(%s, %s, %s, %s, [%s])' % (enc(n), enc(c), enc(g), llit(lv), '; '.join(parts)))
+        descs.append({'name': n, 'cache': c, 'grid': g, 'levels': lv, 'id': repr(tid)})
+    seen = {}
+    for key, tid in tasks:
+        if tid in seen and seen[tid] != key:
+            ctx.fail('task-ids-collide', 'the seed tasks %r and %r have the same id %r: they share one progress entry' % (seen[tid], key, tid),
+                     {'task_a': seen[tid], 'task_b': key, 'id': repr(tid)})
+            break
+        seen[tid] = key
+    ctx.corr_check('task_id', 'Grid Seed Gen_seed_id', 'list Z * list Z * list Z * list Z * list (list Z + list Z)', terms,
+                   "fun c => let '(n, cn, gn, lv, obs) := c in "
+                   "list_eqb (fun a b => match a, b with inl x, inl y => list_eqb Z.eqb x y | inr x, inr y => list_eqb Z.eqb x y | _, _ => false end) "
+                   "(map (fun p => match p with PConst s => inl s | PText s => inl s | PLevels l => inr l end) (seed_task_id n cn gn lv)) obs",
+                   lambda i: descs[i])
+
+
+CONF_MAPPROXY = """
+services:
+  tms:
+layers:
+  - name: l
+    title: l
+    sources: [c]
+caches:
+  c:
+    sources: [upstream]
+    grids: [%(grid)s]
+    meta_size: [%(msx)d, %(msy)d]
+    meta_buffer: 0
+%(rescale)s
+sources:
+  upstream:
+    type: wms
+    req:
+      url: http://127.0.0.1:9/service
+      layers: foo
+grids:
+  small:
+    srs: 'EPSG:25832'
+    bbox: [200000, 5200000, 1000000, 6000000]
+    res: [2000, 1000, 400, 200, 100]
+    origin: sw
+globals:
+  cache:
+    base_dir: %(base)s/cache_data
+    lock_dir: %(base)s/locks
+    tile_lock_dir: %(base)s/tile_locks
+"""
+
+CONF_SEED = """
+seeds:
+%(seeds)s
+coverages:
+  cov:
+    bbox: %(bbox)r
+    srs: '%(srs)s'
+"""
+
+
+class ConfRun(object):
+    """One run of the real seed() over the tasks of a configuration (recording pool instead of worker processes)."""
+
+    def __init__(self, tasks, fn, crash_at, persist_plan, use_store=True, continue_seed=True):
+        self.tasks, self.fn = tasks, fn
+        self.crash_at, self.persist_plan = crash_at, persist_plan
+        self.use_store, self.continue_seed = use_store, continue_seed
+        self.events, self.nreports, self.clock = [], 0, FakeTime()
+        self.crashed, self.raised, self.store_problems = False, None, []
+        self.log = None
+
+    def tick(self):
+        if self.crash_at is not None and len(self.events) >= self.crash_at:
+            raise Crash()
+        if len(self.events) >= 4 * MAX_EVENTS:
+            raise TooBig()
+
+    def check_store(self, ident):
+        import pickle
+        try:
+            with open(self.fn, 'rb') as f:
+                st = pickle.load(f)
+        except Exception as e:  # noqa
+            self.store_problems.append('progress file unreadable after write: %r' % (e,))
+            return
+        if st.get(self.log.current_task_id, 'missing') != ident:
+            self.store_problems.append('progress file holds %r for task %r, reported identifier %r' % (
+                st.get(self.log.current_task_id, 'missing'), self.log.current_task_id, ident))
+
+    def go(self):
+        import contextlib
+        import mapproxy.seed.util as su
+        import mapproxy.seed.seeder as sd
+        RecStore, RecLog = make_classes()
+        run = self
+
+        class Pool(object):
+            def __init__(self, task, worker_class, size=2, dry_run=False, progress_logger=None):
+                self.progress_logger = progress_logger
+
+            def process(self, tiles, progress):
+                run.tick()
+                run.events.append(('proc', tuple(tuple(t) for t in tiles)))
+                if self.progress_logger:
+                    self.progress_logger.log_step(progress)
+
+            def stop(self, force=False):
+                pass
+        saved_time, saved_pool = su.time, sd.TileWorkerPool
+        su.time, sd.TileWorkerPool = self.clock, Pool
+        try:
+            store = RecStore(self.fn, continue_seed=self.continue_seed) if self.use_store else None
+            log = RecLog(out=io.StringIO(), silent=True, verbose=True, progress_store=store)
+            log.setup(self)
+            self.log = log
+            try:
+                with contextlib.redirect_stdout(io.StringIO()):
+                    sd.seed(self.tasks, concurrency=1, progress_logger=log)
+            except Crash:
+                self.crashed = True
+            except TooBig:
+                self.raised = 'TooBig'
+            except Exception as e:  # noqa
+                self.raised = type(e).__name__ + ': ' + str(e)[:80]
+        finally:
+            su.time, sd.TileWorkerPool = saved_time, saved_pool
+        return self
+
+    def processed(self):
+        out = []
+        for e in self.events:
+            if e[0] == 'proc':
+                out.extend(e[1])
+        return out
+
+
+def conf_stream(ctx):
+    """The configuration path: mapproxy.yaml + seed.yaml -> load_seed_tasks_conf -> real seed() with a real ProgressStore;
+    caches with upscale_tiles / downscale_tiles are split into one task per level (work_on_metatiles = False)."""
+    from mapproxy.config.loader import load_configuration
+    from mapproxy.seed.config import load_seed_tasks_conf
+    import random as _r
+    rng = ctx.rng
+    for i in range(ctx.n(3, 24)):
+        rescale = rng.choice(['    upscale_tiles: 1', '    downscale_tiles: 1', '    upscale_tiles: 2', ''])
+        gridname = rng.choice(['GLOBAL_GEODETIC', 'small', 'GLOBAL_MERCATOR'])
+        if gridname == 'small':
+            levels = sorted(set(rng.randrange(0, 5) for _ in range(3)))
+            x, y = rng.uniform(6.5, 11.0), rng.uniform(47.5, 53.0)
+            bbox, srs = [x, y, x + rng.uniform(0.3, 2.0), y + rng.uniform(0.2, 1.5)], 'EPSG:4326'
+        else:
+            levels = sorted(set(rng.randrange(0, 5) for _ in range(3)))
+            x, y = rng.uniform(-170, 60), rng.uniform(-75, 20)
+            bbox, srs = [x, y, x + rng.uniform(20, 110), y + rng.uniform(15, 55)], 'EPSG:4326'
+        two = rng.random() < 0.4
+        seeds = '  s1:\n    caches: [c]\n    coverages: [cov]\n    levels: %r\n' % (levels,)
+        if two:
+            seeds += '  s2:\n    caches: [c]\n    coverages: [cov]\n    levels: %r\n' % (levels[:2],)
+        conf_desc = {'grid': gridname, 'rescale': rescale.strip(), 'levels': levels, 'coverage': bbox, 'seeds': 2 if two else 1}
+        base = ctx.tmpdir('c11conf')
+        mp, sdf = os.path.join(base, 'mapproxy.yaml'), os.path.join(base, 'seed.yaml')
+        msx, msy = rng.choice([(2, 2), (1, 1), (3, 2)])
+        with open(mp, 'w') as f:
+            f.write(CONF_MAPPROXY % {'grid': gridname, 'msx': msx, 'msy': msy, 'rescale': rescale, 'base': base})
+        with open(sdf, 'w') as f:
+            f.write(CONF_SEED % {'seeds': seeds, 'bbox': bbox, 'srs': srs})
+        try:
+            conf = load_configuration(mp, seed=True)
+            with conf:
+                tasks = load_seed_tasks_conf(sdf, conf).seeds(['s1', 's2'] if two else ['s1'])
+                conf_check(ctx, tasks, conf_desc, base, _r.Random(rng.getrandbits(64)))
+        except Exception as e:  # noqa
+            import traceback
+            ctx.problem('harness', 'configuration stream raised %r' % (e,), {'conf': conf_desc, 'trace': traceback.format_exc()[-1200:]})
+
+
+def conf_check(ctx, tasks, desc, base, rng):
+    desc = dict(desc, tasks=[[t.md['name'], list(t.levels)] for t in tasks])
+    ctx.count('conf_tasks_per_run=%d' % len(tasks))
+    ctx.count('conf_rescale=%s' % (desc['rescale'] or 'none'))
+    ids = [t.id for t in tasks]
+    if len(set(ids)) != len(ids):
+        ctx.fail('task-ids-collide', 'the %d seed tasks of one configuration have only %d different ids %r: they share progress entries'
+                 % (len(ids), len(set(ids)), sorted(set(ids), key=repr)), {'conf': desc})
+    fn = os.path.join(base, 'progress')
+    ref = ConfRun(tasks, fn, None, lambda i: True, use_store=False).go()
+    if ref.raised:
+        if ref.raised == 'TooBig':
+            ctx.count('conf_skipped_too_big')
+            return
+        ctx.fail('walk-raises:' + ref.raised.split(':')[0], 'seed() over the configured tasks raised %s' % ref.raised, {'conf': desc})
+        return
+    want = set(ref.processed())
+    n = len(ref.events)
+    ctx.case(('conf', json.dumps(desc, sort_keys=True, default=repr)), len(tasks) > 1, {'conf': desc, 'events': n, 'tiles': len(want)})
+
+    def chain(crashes, p):
+        if os.path.exists(fn):
+            os.unlink(fn)
+        got, runs = set(), []
+        for j, k in enumerate(list(crashes) + [None]):
+            bits = [rng.random() < p for _ in range(n + 8)]
+            r = ConfRun(tasks, fn, k, (lambda i, _b=bits: _b[i] if i < len(_b) else True), use_store=True,
+                        continue_seed=(j > 0)).go()
+            runs.append(r)
+            got |= set(r.processed())
+            for sp in r.store_problems[:1]:
+                ctx.fail('store-wrong-identifier', sp, {'conf': desc})
+            if r.raised:
+                ctx.fail('walk-raises:' + r.raised.split(':')[0], 'seed() raised %s' % r.raised, {'conf': desc, 'crashes': crashes})
+        ctx.case(('conf-chain', json.dumps(desc, sort_keys=True, default=repr), tuple(crashes), p), True)
+        ctx.count('conf_interruptions', len(crashes))
+        missing = want - got
+        if missing:
+            what = ('an uninterrupted seed run with a progress file' if not crashes else
+                    'a seed run interrupted at event(s) %r and continued from the progress file' % (list(crashes),))
+            ctx.fail('config-run-loses-tiles',
+                     '%s over the %d tasks %r never processed %d of the %d tiles selected by all tasks, e.g. %r'
+                     % (what, len(tasks), desc['tasks'], len(missing), len(want), sorted(missing)[:3]),
+                     {'conf': desc, 'crashes': list(crashes), 'missing': sorted(missing)[:10]})
+            return False
+        return True
+    if not chain([], 1.0):
+        return
+    for _ in range(3 if ctx.quick else 8):
+        ks = sorted(rng.randrange(0, n + 1) for _ in range(rng.choice([1, 1, 2])))
+        if not chain(ks, rng.choice([1.0, 0.5, 0.2])):
+            return
+
+
 def load_corpus():
     out = []
     if os.path.isdir(CORPUS):
@@ -1310,10 +1569,12 @@ def run(ctx):
     rng = ctx.rng
     can_skip_cases(ctx)
     limit_cases(ctx)
+    id_cases(ctx)
     try:
         pool_cases(ctx)
     except Exception as e:  # noqa
         ctx.problem('harness', 'pool oracle raised %r' % (e,))
+    conf_stream(ctx)
     out = {'defs': [], 'tdefs': [], 'geo': [], 'tree': []}
     specs = []
     for fn, c in load_corpus():
@@ -1339,11 +1600,11 @@ def run(ctx):
             import traceback
             ctx.problem('harness', 'task check raised %r' % (e,), {'task': spec, 'trace': traceback.format_exc()[-1500:]})
     ctx.corr_check('geo_walk', 'Grid Seed',
-                   'grid * Z * Z * (bbox -> Z) * Z * list Z * bbox * option path * option nat * (bool * (coord -> bool)) * list oevent',
+                   'grid * Z * Z * (bbox -> Z) * Z * list Z * bbox * option path * option nat * (bool * (coord -> bool) * bool) * list oevent',
                    [t for t, _ in out['geo']],
-                   "fun c => let '(g, msx, msy, cv, sk, lvls, root, old, k, (hall, keep), obs) := c in "
+                   "fun c => let '(g, msx, msy, cv, sk, lvls, root, old, k, (hall, keep, womt), obs) := c in "
                    "let cut := fun (k : option nat) (l : list oevent) => match k with None => l | Some n => firstn n l end in "
-                   "oevents_eqb (cut k (observe g msx msy hall keep (geo_walk g msx msy cv sk lvls root old))) obs",
+                   "oevents_eqb (cut k (observe g msx msy womt hall keep (geo_walk g msx msy cv sk lvls root old))) obs",
                    lambda i: out['geo'][i][1], defs='\n'.join(out['defs']), shard=ctx.n(12, 40))
     ctx.corr_check('tree_walk', 'Grid Seed', 'wnode * Z * option path * option nat * list coord * list event',
                    [t for t, _ in out['tree']],
